@@ -145,6 +145,10 @@ let () =
          match parse line with
          | VL [VS tag; st] when ocaml_string tag = "genesis" -> pre := st
          | VL [VS tag; ctx; op; outcome; post] when ocaml_string tag = "step" ->
+           (match Sys.getenv_opt "VERIF_DUMP_LINE" with
+            | Some l when int_of_string l = !lineno ->
+              let b = Buffer.create 1024 in print b (model_post !pre ctx op); Printf.printf "MODELPOST %s\n" (Buffer.contents b)
+            | _ -> ());
            let r = check_step !pre ctx op outcome post in
            let b = Buffer.create 64 in
            print b r;
